@@ -132,6 +132,7 @@ struct TraitImpl {
 }
 
 struct Collected {
+    trait_supers: BTreeMap<String, String>,
     assoc_bounds: BTreeMap<(String, String), String>,
     trait_impls: Vec<TraitImpl>,
     fns: Vec<FnRec>,
@@ -258,6 +259,7 @@ fn collect_items(items: &[Item], file: &str, module: &str, c: &mut Collected) {
                 if is_cfg_test(&t.attrs) {
                     continue;
                 }
+                c.trait_supers.insert(t.ident.to_string(), t.supertraits.iter().map(|b| clean(&ts(b))).collect::<Vec<_>>().join(" + "));
                 let mut methods = vec![];
                 for ti in &t.items {
                     if let TraitItem::Type(at) = ti {
@@ -519,6 +521,7 @@ fn trait_method_name(fns: &[FnRec], tr: &str, ty: &str, m: &str) -> (String, Str
 }
 
 struct AssocResolver<'a> {
+    supers: &'a BTreeMap<String, String>,
     tr: &'a str,
     assoc: &'a BTreeMap<String, String>,
     bounds: &'a BTreeMap<(String, String), String>,
@@ -534,6 +537,16 @@ impl<'a> VisitMut for AssocResolver<'a> {
             let m = p.segments[2].ident.to_string();
             if let Some(x) = self.assoc.get(&a) {
                 let xty = x.rsplit("::").next().unwrap_or(x).trim().to_string();
+                // a supertrait bound that fixes the associated type (`FungibleToken<ContractType = Vault>`) makes the
+                // type concrete inside this trait: ordinary resolution applies and an inherent method wins
+                let concrete = self.supers.get(self.tr).map(|t| t.replace(' ', "").contains(&format!("{}=", a))).unwrap_or(false);
+                if concrete && self.fns.iter().any(|f| !f.in_trait_decl && f.trait_name.is_none() && f.key == format!("{}::{}", xty, m)) {
+                    let args = p.segments[2].arguments.clone();
+                    let np: Path = syn::parse_str(&format!("{}::{}", xty, m)).expect("path");
+                    *p = np;
+                    p.segments.last_mut().unwrap().arguments = args;
+                    return;
+                }
                 let bound = self.bounds.get(&(self.tr.to_string(), a.clone())).or_else(|| {
                     // the associated type may be declared by a supertrait
                     self.bounds.iter().find(|((_, an), _)| an == &a).map(|(_, b)| b)
@@ -1184,7 +1197,7 @@ fn main() {
     }
     let job: Value = serde_json::from_str(&std::fs::read_to_string(&args[1]).expect("read job")).expect("job json");
     let root = job["root"].as_str().unwrap_or("/repo").to_string();
-    let mut c = Collected { assoc_bounds: BTreeMap::new(), trait_impls: vec![], fns: vec![], types: vec![], consts: vec![], clients: vec![], type_names: BTreeSet::new() };
+    let mut c = Collected { trait_supers: BTreeMap::new(), assoc_bounds: BTreeMap::new(), trait_impls: vec![], fns: vec![], types: vec![], consts: vec![], clients: vec![], type_names: BTreeSet::new() };
     let mut errors: Vec<String> = vec![];
     for f in job["files"].as_array().expect("files") {
         let rel = f.as_str().unwrap();
@@ -1275,7 +1288,7 @@ fn main() {
                 g.in_trait_decl = false;
                 g.vis = "pub".into();
                 g.file = format!("{} (default of trait {} for {})", f.file, tr, ty);
-                let mut ar = AssocResolver { tr: &tr, assoc: &assoc, bounds: &c.assoc_bounds, fns: &c.fns, need: vec![], errors: vec![] };
+                let mut ar = AssocResolver { supers: &c.trait_supers, tr: &tr, assoc: &assoc, bounds: &c.assoc_bounds, fns: &c.fns, need: vec![], errors: vec![] };
                 ar.visit_block_mut(&mut g.block);
                 let mut pn = PathNorm { assoc: &assoc, sites: 0 };
                 pn.visit_signature_mut(&mut g.sig);
